@@ -72,17 +72,46 @@ Proof. exact pfield_refuses. Qed.
 Print Assumptions C39_pfield_refuses.
 
 (** SecFld argument resolution ([resolve] returns (field char, field degree, resolved char, resolved
-    ext_deg, claimed order)); the six primitives are arbitrary oracles.
-    For ALL arguments: field characteristic = resolved char; claimed order = [order] when given
-    (else char^ext_deg); min_order <= claimed order. *)
+    ext_deg, claimed order)); the six primitives are arbitrary oracles.  The model includes the
+    assert [ext_deg == modulus.degree()] of the polynomial branch (repo commit d972df8).
+    For ALL arguments: field characteristic = resolved char; field degree = resolved ext_deg (>= 1);
+    claimed order = [order] when given (else char^ext_deg); min_order <= claimed order. *)
 Theorem C39_secfld_bookkeeping :
   forall fpp isprime irred iroot nextprime clog order modulus char ext_deg min_order fc fd c e q,
     resolve fpp isprime irred iroot nextprime clog order modulus char ext_deg min_order = Ok (fc, fd, c, e, q) ->
-    fc = c /\ q = or_ order (c ^ e) /\ or_ min_order q <= q.
+    fc = c /\ (1 <= e -> fd = e) /\ q = or_ order (c ^ e) /\ or_ min_order q <= q.
 Proof. exact resolve_bookkeeping. Qed.
 Print Assumptions C39_secfld_bookkeeping.
 
-(** min_order: unconditional (a wrong float log can only become an AssertionError) *)
+(** explicit order q0, ANY modulus argument (law of factor_prime_power: p^d = x, p <> 0, d >= 1):
+    the field has exactly order q0, with (characteristic, degree) the factorisation of q0 *)
+Theorem C39_secfld_order_exact :
+  forall fpp isprime irred iroot nextprime clog q0 modulus char ext_deg min_order fc fd c e q,
+    (forall x p d, fpp x = Some (p, d) -> p ^ d = x /\ p <> 0 /\ 1 <= d) ->
+    resolve fpp isprime irred iroot nextprime clog (Some q0) modulus char ext_deg min_order = Ok (fc, fd, c, e, q) ->
+    fpp q0 = Some (fc, fd) /\ fc ^ fd = q0 /\ q = q0 /\ c = fc /\ e = fd.
+Proof. exact secfld_order_exact. Qed.
+Print Assumptions C39_secfld_order_exact.
+
+(** explicit nonzero char: exactly that characteristic *)
+Theorem C39_secfld_char_exact :
+  forall fpp isprime irred iroot nextprime clog order modulus c0 ext_deg min_order fc fd c e q,
+    c0 <> 0 ->
+    resolve fpp isprime irred iroot nextprime clog order modulus (Some c0) ext_deg min_order = Ok (fc, fd, c, e, q) ->
+    fc = c0.
+Proof. exact secfld_char_exact. Qed.
+Print Assumptions C39_secfld_char_exact.
+
+(** explicit ext_deg >= 1: exactly that degree, also with a polynomial / str / int > char modulus *)
+Theorem C39_secfld_ext_deg_exact :
+  forall fpp isprime irred iroot nextprime clog order modulus char e0 min_order fc fd c e q,
+    1 <= e0 ->
+    resolve fpp isprime irred iroot nextprime clog order modulus char (Some e0) min_order = Ok (fc, fd, c, e, q) ->
+    fd = e0 /\ e = e0.
+Proof. exact secfld_ext_deg_exact. Qed.
+Print Assumptions C39_secfld_ext_deg_exact.
+
+(** min_order <= claimed order: unconditional (a wrong float log can only become an AssertionError) *)
 Theorem C39_secfld_min_order :
   forall fpp isprime irred iroot nextprime clog order modulus char ext_deg mo fc fd c e q,
     mo <> 0 ->
@@ -91,46 +120,33 @@ Theorem C39_secfld_min_order :
 Proof. exact secfld_min_order. Qed.
 Print Assumptions C39_secfld_min_order.
 
-(** PARTIAL: explicit order q0 gives exactly char^ext_deg = q0 = claimed order, and the FIELD has
-    order q0 when the modulus is absent or an int that is not turned into a polynomial.
-    Missing (false, see C39_secfld_order_exact_refuted): the same for polynomial moduli. *)
-Theorem C39_secfld_order_exact_partial :
-  forall fpp isprime irred iroot nextprime clog q0 modulus char ext_deg min_order fc fd c e q,
-    (forall x p d, fpp x = Some (p, d) -> p ^ d = x /\ p <> 0 /\ 1 <= d) -> q0 <> 0 ->
-    resolve fpp isprime irred iroot nextprime clog (Some q0) modulus char ext_deg min_order = Ok (fc, fd, c, e, q) ->
-    q = q0 /\ c ^ e = q0 /\ fc = c /\ fpp q0 = Some (c, e) /\
-    ((modulus = MNone \/ exists z, modulus = MInt z /\ z <= c) -> fd = e /\ fc ^ fd = q0).
-Proof. exact secfld_order_exact_partial. Qed.
-Print Assumptions C39_secfld_order_exact_partial.
-
-(** REFUTED: "a successful call returns a field of exactly the requested order / degree / at least
-    min_order".  Witnesses (oracle answers are the true ones for these inputs):
-    SecFld(order=8, modulus='x^2+x+1') -> GF(2^2);  SecFld(modulus='x^2+x+1', ext_deg=10,
-    min_order=100) -> GF(2^2), order 4 < 100.  Replayed on the implementation by the check. *)
-Theorem C39_secfld_order_exact_refuted :
-  exists fpp isprime irred iroot nextprime clog order modulus char ext_deg min_order fc fd c e q,
-    resolve fpp isprime irred iroot nextprime clog order modulus char ext_deg min_order = Ok (fc, fd, c, e, q) /\
-    order = Some 8 /\ fpp 8 = Some (2, 3) /\ fc ^ fd = 4.
+(** ... and the claimed order is the order of the field handed out, so min_order <= |field|.
+    (resolved ext_deg >= 1; ext_deg <= 0 only arises from ext_deg = ceil(log(min_order, char)) with
+    min_order <= 1, where find_irreducible(p, 0) gives a degree-1 field, which is larger.) *)
+Theorem C39_secfld_min_order_field :
+  forall fpp isprime irred iroot nextprime clog order modulus char ext_deg mo fc fd c e q,
+    (forall x p d, fpp x = Some (p, d) -> p ^ d = x /\ p <> 0 /\ 1 <= d) -> 1 <= e -> mo <> 0 ->
+    resolve fpp isprime irred iroot nextprime clog order modulus char ext_deg (Some mo) = Ok (fc, fd, c, e, q) ->
+    q = fc ^ fd /\ mo <= fc ^ fd.
 Proof.
-  exists (fun x => if x =? 8 then Some (2, 3) else None), (fun x => x =? 2), (fun _ _ => true),
-         (fun _ _ => (0, true)), (fun _ => 0), (fun _ _ => None),
-         (Some 8), (MStr [1; 1; 1]), None, None, None, 2, 2, 2, 3, 8.
-  vm_compute. repeat split.
+  intros. split; [eapply secfld_claimed_is_actual; eassumption|eapply secfld_min_order_field; eassumption].
 Qed.
-Print Assumptions C39_secfld_order_exact_refuted.
+Print Assumptions C39_secfld_min_order_field.
 
-Theorem C39_secfld_min_order_field_refuted :
-  exists fpp isprime irred iroot nextprime clog modulus fc fd c e q,
-    resolve fpp isprime irred iroot nextprime clog None modulus None (Some 10) (Some 100) = Ok (fc, fd, c, e, q) /\
-    fc ^ fd < 100 /\ fd <> 10.
-Proof.
-  exists (fun _ => None), (fun x => x =? 2), (fun _ _ => true), (fun _ _ => (0, true)), (fun _ => 0),
-         (fun _ _ => None), (MStr [1; 1; 1]), 2, 2, 2, 10, 1024.
-  vm_compute. repeat split; discriminate.
-Qed.
-Print Assumptions C39_secfld_min_order_field_refuted.
+(** the formerly accepted inconsistent calls are now refused:
+    SecFld(order=8, modulus='x^2+x+1'), SecFld(modulus='x^2+x+1', ext_deg=10, min_order=100) *)
+Example C39_inconsistent_degree_refused :
+  resolve (fun x => if x =? 8 then Some (2, 3) else None) (fun x => x =? 2) (fun _ _ => true)
+          (fun _ _ => (0, true)) (fun _ => 0) (fun _ _ => None)
+          (Some 8) (MStr [1; 1; 1]) None None None = Err EAssert /\
+  resolve (fun _ => None) (fun x => x =? 2) (fun _ _ => true) (fun _ _ => (0, true)) (fun _ => 0) (fun _ _ => None)
+          None (MStr [1; 1; 1]) None (Some 10) (Some 100) = Err EAssert /\
+  resolve (fun x => if x =? 4 then Some (2, 2) else None) (fun x => x =? 2) (fun _ _ => true)
+          (fun _ _ => (0, true)) (fun _ => 0) (fun _ _ => None)
+          (Some 4) (MStr [1; 1; 1]) None None (Some 3) = Ok (2, 2, 2, 2, 4).
+Proof. vm_compute. repeat split. Qed.
 
-(** Non-vacuity of the partial theorem: SecFld(order=9) -> GF(3^2) *)
+(** Non-vacuity of the order/min_order theorems: SecFld(order=9, min_order=5) -> GF(3^2) *)
 Example C39_nonvacuous_resolve :
   let fpp := fun x => if x =? 9 then Some (3, 2) else None in
   (forall x p d, fpp x = Some (p, d) -> p ^ d = x /\ p <> 0 /\ 1 <= d) /\
